@@ -33,21 +33,42 @@ class Collector:
             n, p = props[len(props) // 2]
             self.samples.append({'path': label, 'obligation': n, 'smt': z3.simplify(p).sexpr()[:400]})
         conj = z3.And(*[p for _, p in props]) if len(props) > 1 else props[0][1]
-        self.queries += 1
-        r, out, dt = EX.solve([z3.Not(conj)] + blockers, cap_s=self.cap)
-        if r == 'unsat':
-            self.n_dis += len(props)
-        else:
-            # split
-            for n, p in (props if len(props) > 1 else []):
+        remaining = list(props)
+        if not group:
+            # every obligation in its own query (nonlinear arithmetic: a conjunction is much harder than its parts)
+            for n, p in remaining:
                 self.queries += 1
                 r1, out1, dt1 = EX.solve([z3.Not(p)] + blockers, cap_s=self.cap)
-                self._one(n, label, r1, out1, extra)
-            if len(props) == 1:
-                self._one(props[0][0], label, r, out, extra)
+                self._one(n, label, r1, out1, extra, formulas=[z3.Not(p)] + blockers)
+            remaining = []
+        for _round in range(6):
+            if not remaining:
+                break
+            cj = z3.And(*[p for _, p in remaining]) if len(remaining) > 1 else remaining[0][1]
+            self.queries += 1
+            r, out, dt = EX.solve([z3.Not(cj)] + blockers, cap_s=self.cap, eval_named=remaining)
+            if r == 'unsat':
+                self.n_dis += len(remaining); remaining = []
+            elif r == 'sat':
+                false = set(out.get('false') or [])
+                if not false:
+                    false = {remaining[0][0]}
+                first = True
+                for n in [n for n, _ in remaining if n in false]:
+                    if first:
+                        self.cex.append({'name': n, 'path': label, 'inputs': self._model(out), 'extra': extra,
+                                         'also_false': sorted(false)[:6]})
+                        first = False
+                remaining = [(n, p) for n, p in remaining if n not in false]
+            else:
+                for n, _ in remaining:
+                    self.inconclusive.append('%s@%s: %s' % (n, label, (out or {}).get('why', 'unknown')))
+                remaining = []
+        for n, _ in remaining:
+            self.inconclusive.append('%s@%s: not decided (too many failing obligations on this path)' % (n, label))
         # known findings: confirm each open one separately (so that it is reported, and only it is blocked)
         for k in self.block:
-            if k in self.known:
+            if k in self.known and not any(c.get('known') == k for c in self.cex):
                 self.queries += 1
                 rk, outk, dtk = EX.solve([z3.Not(conj), self.known[k]()], cap_s=self.cap)
                 if rk == 'sat':
@@ -59,10 +80,16 @@ class Collector:
             rw, _, _ = EX.solve([wp], cap_s=self.cap, want_model=False)
             self.witness[wn] = rw
 
-    def _one(self, n, label, r, out, extra):
+    def _one(self, n, label, r, out, extra, formulas=None):
         if r == 'unsat':
             self.n_dis += 1
         elif r == 'sat':
+            if EX.real_inputs and formulas is not None:
+                # prefer a model whose real-valued inputs are float32-representable (multiples of 1/64)
+                self.queries += 1
+                r2, out2, _ = EX.solve(list(formulas) + [z3.IsInt(v * 64) for v in EX.real_inputs], cap_s=min(self.cap, 30))
+                if r2 == 'sat':
+                    out = out2
             self.cex.append({'name': n, 'path': label, 'inputs': self._model(out), 'extra': extra})
         else:
             self.inconclusive.append('%s@%s: %s' % (n, label, (out or {}).get('why', 'unknown')))
@@ -89,7 +116,7 @@ class Collector:
 
     def result(self, stats, **kw):
         d = {'paths': stats['paths'], 'nontrivial_paths': self.nontrivial, 'obligations': self.n_obl, 'discharged': self.n_dis,
-             'inconclusive': self.inconclusive, 'cex': self.cex[:6], 'queries': self.queries + stats.get('feas_queries', 0),
+             'inconclusive': self.inconclusive, 'cex': ([c for c in self.cex if not c.get('known')][:5] + [c for c in self.cex if c.get('known')][:2]), 'queries': self.queries + stats.get('feas_queries', 0),
              'solver_s': stats['solver_s'], 'truncated': stats.get('truncated', False), 'pending': stats.get('pending', 0),
              'samples': self.samples, 'witness': self.witness}
         d.update(kw)
